@@ -45,6 +45,16 @@ class Sealed(Exception):
         raise AttributeError("instances of Sealed are read-only (%s)" % name)
 
 
+class Plain(Exception):
+    """an exception class with value equality and therefore no hash (what a
+    plain @dataclass exception is): it cannot be put in a set or a dict"""
+
+    def __eq__(self, other):
+        return type(other) is type(self) and other.args == self.args
+
+    __hash__ = None
+
+
 class Fatal(BaseException):
     """an application-defined BaseException: asyncio stores it in the task like
     any other exception (only KeyboardInterrupt / SystemExit are special)"""
@@ -55,6 +65,10 @@ def make_exception(kind, who, trace=None):
         return Fatal(who)
     if kind == 'sealed':
         return Sealed(who)
+    if kind == 'unhashable':
+        return Plain(who)
+    if kind == 'braces':
+        return KeyError({'job': who, 'why': '{0} {} {unknown}'})   # str() and repr() full of format fields
     if kind == 'shared' and trace is not None:
         # one pre-built instance for the whole program (a sentinel), raised by
         # whoever needs it, possibly seen before by code that is still running
@@ -520,9 +534,10 @@ def build(trace, spec, top=True, registry=None):
     return sched
 
 
-def inspect_everything(top, reg):
+def inspect_everything(top, reg, n=0):
     """read-only use of the synchronous API: must leave no trace on a run
-    (before it, in the middle of it, or on what is read after it)"""
+    (before it, in the middle of it, or on what is read after it); `n` varies
+    what is looked at last from one sweep to the next"""
     buf = io.StringIO()
     with contextlib.redirect_stdout(buf):
         scheds = [j for j in reg.values() if hasattr(j, 'jobs')]
@@ -565,6 +580,18 @@ def inspect_everything(top, reg):
             pass                                        # known finding D7 (empty nested scheduler endpoints)
         for job in reg.values():
             repr(job)
+        # one level of the tree looked at on its own (listings number the jobs
+        # from that level down), and a topological scan abandoned half-way
+        one = scheds[n % len(scheds)]
+        try:
+            [one.list, one.list_safe, one.debrief][(n // len(scheds)) % 3]()
+        except Exception:                               # noqa  listing is judged by C15/C20, not here
+            pass
+        other = scheds[(n + 1) % len(scheds)]
+        try:
+            next(iter(other.topological_order()), None)
+        except Exception:                               # noqa
+            pass
 
 
 def apply_history(trace, spec, top, reg):
@@ -577,7 +604,7 @@ def apply_history(trace, spec, top, reg):
     hist = spec.get('history') or {}
     for k, op in enumerate(hist.get('pre', [])):
         if op[0] == 'inspect':
-            inspect_everything(top, reg)
+            inspect_everything(top, reg, k)
         elif op[0] == 'edge':
             _, a, b = op
             reg[a].requires(reg[b])
